@@ -2,7 +2,7 @@
 from checkcfg import TEXT  # noqa: F401
 
 # commits in /repo that add the guarded hooks (feature `verif`)
-HOOK_COMMITS = ["89caa3c", "ecf4dc9", "6a683e6", "6efeff3", "f050715", "39ce870", "732b065", "1e0f5a1", "71da46f", "7ec9dd3", "4082d4e", "b4c261d", "011679a", "59b9e80", "5a2f56c", "cfbaf0a", "5a2d62e", "f27b178", "dcf0782"]
+HOOK_COMMITS = ["89caa3c", "ecf4dc9", "6a683e6", "6efeff3", "f050715", "39ce870", "732b065", "1e0f5a1", "71da46f", "7ec9dd3", "4082d4e", "b4c261d", "011679a", "59b9e80", "5a2f56c", "cfbaf0a", "5a2d62e", "f27b178", "dcf0782", "35850d2", "4bbdc94", "768e7f5", "8cde7b4"]
 
 _PENDING = "not claimed yet: model, theorems and correspondence engine for this property are still being built (DESIGN.md §8 build order); will be claimed at category proof"
 NOT_APPLICABLE = {f"C{i:02d}": _PENDING for i in range(1, 21)}
